@@ -168,6 +168,22 @@ pub fn spec_step<const C: usize>(pre: &Db<C>, slot: usize, op: &OpReq, vid: u128
     }
 }
 
+/// The id an accepted AddVersion was given, as observed (response, else the stored record): the
+/// oracle must not prescribe WHICH value of the RNG the server uses or how many it draws.
+pub fn observed_vid<const C: usize>(r: &OpRes, pre: &Db<C>, post: &Db<C>, slot: usize) -> u128 {
+    if let OpRes::Accepted { vid, .. } = r {
+        return *vid;
+    }
+    if slot != NCL {
+        let a = pre.get(slot);
+        let b = post.get(slot);
+        if b.n == a.n + 1 {
+            return b.latest;
+        }
+    }
+    rng_val(0)
+}
+
 /// response equality up to the urgency of an accepted version (decided separately, C12)
 pub fn res_eq(real: &OpRes, spec: &OpRes) -> bool {
     match (real, spec) {
@@ -436,7 +452,7 @@ where
     let (h, server) = mk_server(s.db, ServerConfig::default());
     let r = run_op(&server, &s.op);
     let post = h.w().durable;
-    let (_, spost, unspec) = spec_step(&s.db, s.slot, &s.op, rng_val(0));
+    let (_, spost, unspec) = spec_step(&s.db, s.slot, &s.op, observed_vid(&r, &s.db, &post, s.slot));
     if let Some(img) = h.w().crash_img {
         chk!(img == s.db || img == post, "c04: a crash at any storage-call boundary leaves the pre-state or the complete post-state, never a mixture");
     }
@@ -444,6 +460,7 @@ where
         chk!(post == spost, "c04: what was acknowledged is durable (committed state = specified post-state)");
     }
     chk!(!h.w().mon.write_after_commit, "c04: no write after the commit");
+    cov!(h.w().crash_img.is_some(), "c04.cov: crash point inside the operation");
     if KIND == 0 || KIND == 2 || KIND == 4 {
         cov!(h.w().crash_img.is_some() && post != s.db, "c04.cov: crash point inside a mutating operation");
     }
@@ -469,7 +486,7 @@ where
     let r = run_op(&server, &s.op);
     let post = h.w().durable;
     let fired = h.w().mon.faults_fired > 0;
-    let (sres, spost, unspec) = spec_step(&s.db, s.slot, &s.op, rng_val(0));
+    let (sres, spost, unspec) = spec_step(&s.db, s.slot, &s.op, observed_vid(&r, &s.db, &post, s.slot));
     let failed_call = if fired { h.w().mon.log[(f1 - 1) as usize] } else { 0 };
     if fired {
         chk!(r == OpRes::Error, "c05: a failed storage step is answered with an error, never with a success");
@@ -493,6 +510,8 @@ where
         let r2 = run_op(&server, &follow);
         chk!(matches!(r2, OpRes::Accepted { .. }), "c05: after a failure the next append on the surviving latest is accepted");
     }
+    cov!(fired, "c05.cov: a storage call of the operation failed");
+    cov!(fired && failed_call == K_GET_CLIENT, "c05.cov: the client read failed");
     if KIND == 0 || KIND == 2 || KIND == 4 {
         cov!(fired && failed_call == K_COMMIT && after, "c05.cov: commit failed after taking effect");
     }
@@ -508,6 +527,53 @@ where
     if KIND == 2 || KIND == 4 {
         cov!(fired && failed_call == K_GET_VERSION, "c05.cov: read inside the snapshot walk failed");
     }
+    std::mem::forget(server);
+}
+
+/// C05 (double fault): a failing storage call in one request and another in the next request.
+pub fn c05_fault2<const C: usize, const KIND: u8>(p: &mut Pool)
+where
+    Cap<C>: Store<C>,
+{
+    let s = setup_any::<C, KIND>(p, TsMode::Fixed);
+    let f1 = p.u8();
+    let f2 = p.u8();
+    let after = p.bool();
+    assume(f1 >= 1 && f1 <= 10 && f2 > f1 && f2 <= 20);
+    set_faults(Faults { f1: f1 as u16, f2: f2 as u16, commit_after_effect: after, crash_at: 0 });
+    let (h, server) = mk_server(s.db, ServerConfig::default());
+    let r1 = run_op(&server, &s.op);
+    let mid = h.w().durable;
+    let fired1 = h.w().mon.faults_fired;
+    let slot = if s.slot == NCL { 0 } else { s.slot };
+    let c = mid.get(slot);
+    assume(c.exists && c.n < C - 1);
+    // the next request: an append on whatever latest survived
+    let r2 = run_op(&server, &OpReq { kind: 0, cid: c.id, arg: c.latest, data: s.op.data });
+    let post = h.w().durable;
+    let fired2 = h.w().mon.faults_fired - fired1;
+    if fired1 > 0 {
+        chk!(r1 == OpRes::Error, "c05: first of two faults: error, never a success");
+    }
+    if fired2 > 0 {
+        chk!(r2 == OpRes::Error, "c05: second of two faults: error, never a success");
+        let lost_ack = after && h.w().mon.log[(f2 - 1) as usize] == K_COMMIT;
+        if !lost_ack {
+            chk!(post == mid, "c05: second of two faults: state exactly as before that request");
+        } else {
+            chk!(post.get(slot).n == c.n + 1 && post.get(slot).vers[c.n].parent == c.latest, "c05: second of two faults, lost acknowledgement: exactly the post-state");
+        }
+    } else {
+        chk!(matches!(r2, OpRes::Accepted { .. }), "c05: the request after a failed one is served normally");
+    }
+    chk!(h.w().mon.open == 0 && h.w().live == post, "c05: nothing open or half-applied after two faults");
+    set_faults(NOFAULTS);
+    let c3 = post.get(slot);
+    if c3.n < C - 1 {
+        let r3 = run_op(&server, &OpReq { kind: 0, cid: c3.id, arg: c3.latest, data: s.op.data });
+        chk!(matches!(r3, OpRes::Accepted { .. }), "c05: after two failed requests the next append is accepted");
+    }
+    cov!(fired1 > 0 && fired2 > 0, "c05.cov: both faults fired");
     std::mem::forget(server);
 }
 
@@ -851,7 +917,7 @@ where
     let (h, server) = mk_server(s.db, ServerConfig::default());
     let r = run_op(&server, &s.op);
     let post = h.w().durable;
-    let (sres, spost, unspec) = spec_step(&s.db, s.slot, &s.op, rng_val(0));
+    let (sres, spost, unspec) = spec_step(&s.db, s.slot, &s.op, observed_vid(&r, &s.db, &post, s.slot));
     let mutating = match r {
         OpRes::Accepted { .. } => true,
         OpRes::SnapshotAck => spost != s.db || unspec,
